@@ -258,14 +258,19 @@ def order_rows(tv, rows, spec):
         return UNCONSTRAINED
       fams.add(family(v))
       vals[r] = v
-    # the property's precondition: sort values mutually comparable
-    if len(fams) != 1 or not fams <= {"num", "str", "date", "dt"}:
+    # the property's precondition: sort values mutually comparable. Blank cells (None) are part
+    # of the engine's documented order: less than everything else, equal among themselves.
+    if len(fams - {"none"}) > 1 or not fams <= {"num", "str", "date", "dt", "none"}:
       return UNCONSTRAINED
     cols.append((vals, sign))
   import functools
   def cmp(a, b):
     for vals, sign in cols:
       x, y = vals[a], vals[b]
+      if x is None or y is None:
+        if x is None and y is None:
+          continue
+        return -sign if x is None else sign
       if x < y:
         return -sign
       if y < x:
